@@ -14,6 +14,8 @@ import paho.mqtt.subscribe as sub
 class Broker:
     """responsive conforming broker on the far side of the fake socket"""
 
+    ACKRC = None      # MQTT 5: reason code put into PUBACK / PUBREC (e.g. 0x10 "No matching subscribers", a success code)
+
     def __init__(self, w: World, proto: int, websocket: bool, arrivals=None):
         self.w = w
         self.proto = proto
@@ -45,9 +47,9 @@ class Broker:
             if t == "CONNECT":
                 self.send(sock, wire.enc_connack(self.proto))
             elif t == "PUBLISH" and d["qos"] == 1:
-                self.send(sock, wire.enc_ack(self.proto, wire.PUBACK, d["mid"]))
+                self.send(sock, wire.enc_ack(self.proto, wire.PUBACK, d["mid"], rc=self.ACKRC if self.proto == 5 else None))
             elif t == "PUBLISH" and d["qos"] == 2:
-                self.send(sock, wire.enc_ack(self.proto, wire.PUBREC, d["mid"]))
+                self.send(sock, wire.enc_ack(self.proto, wire.PUBREC, d["mid"], rc=self.ACKRC if self.proto == 5 else None))
             elif t == "PUBREL":
                 self.send(sock, wire.enc_ack(self.proto, wire.PUBCOMP, d["mid"]))
             elif t == "SUBSCRIBE":
@@ -96,6 +98,7 @@ def run_multiple(a):
     w.install()
     w.max_select = 5000
     br = Broker(w, proto, ws)
+    br.ACKRC = int(a["ackrc"]) if a.get("ackrc") else None
     msgs = parse_msgs(a["msgs"])
     form = a.get("form", "tuple")
     pymsgs = []
@@ -202,7 +205,7 @@ class HelpersStream:
                     msgs.append(f"{hx(t)}:{hx(p)}:{rng.choice([0, 1, 2])}:{rng.randrange(2)}")
                 single = int(n == 1 and rng.random() < 0.5)
                 case.append(f"multiple proto={proto} transport={tr} form={rng.choice(['tuple', 'dict', 'mixed'])} single={single} "
-                            f"auth={int(rng.random() < 0.3)} will={int(rng.random() < 0.3)} msgs={','.join(msgs)}")
+                            f"auth={int(rng.random() < 0.3)} will={int(rng.random() < 0.3)}" + (" ackrc=16" if proto == 5 and rng.random() < 0.4 else "") + f" msgs={','.join(msgs)}")
             else:
                 count = rng.choice([1, 1, 2, 3])
                 n = rng.randint(count, count + 4)
